@@ -17,7 +17,7 @@ NAME = 'diag'
 PROPERTY = 'C08'
 RULE = ('one run = one TBRMMDiagnostics object (+ deep copies of it) driven by '
         'a seeded history over {set control, clear control, set treatment, '
-        'read any public derived quantity, deep-copy, build an unrelated sibling object, rejected assignment '
+        'read any public derived quantity, augmented assignment (x += d), deep-copy, build an unrelated sibling object, rejected assignment '
         '(wrong length / 2-D / too short), caller mutates the array it passed '
         'in}; series pool mixes well-correlated, uncorrelated, level-break, '
         'autocorrelated, constant (NaN fit), integer and near-threshold '
@@ -262,7 +262,13 @@ def generate(rng, tier, profile='default'):
     else:
       r2 = rng.random()
       same_len = idx_by_len[cur_len[o]]
-      if r2 < 0.28:
+      if r2 < 0.04:
+        # augmented assignment: Python reads the property, updates the array
+        # it was handed IN PLACE and assigns that very object back
+        ops.append({'op': 'iadd', 'o': o,
+                    'which': rng.choice(('x', 'x', 'x', 'y')),
+                    'd': rng.choice((1, 2.5, -0.75, 1000, 1e-9))})
+      elif r2 < 0.28:
         pick = (rng.choice(same_len) if rng.random() < 0.93
                 else rng.randrange(len(series)))
         ops.append({'op': 'set_x', 'o': o, 's': pick,
@@ -517,6 +523,57 @@ def execute(desc):
         probe('natural_rejection')
       ev = [step, kind, op.get('o', 0), op['s'], core.canon(raised)]
       absig.append((kind, op.get('o', 0), kinds[op['s']]))
+    elif kind == 'iadd':
+      which = op['which']
+      cur = t.x if which == 'x' else t.y
+      d = op['d']
+      if cur is not None and cur.dtype.kind in 'iub':
+        d = int(d) if int(d) != 0 else 1     # keep integer series integer
+      def do_iadd(target, d=d, which=which):
+        if which == 'x':
+          target.x += d
+        else:
+          target.y += d
+      try:
+        do_iadd(obj)
+        raised = None
+      except Exception as e:  # pylint: disable=broad-except
+        raised = e
+      f = fresh(t.y, t.x, t.pk)
+      try:
+        do_iadd(f)
+        f_raised = None
+      except Exception as e:  # pylint: disable=broad-except
+        f_raised = e
+      if type(raised) is not type(f_raised):  # pylint: disable=unidiomatic-typecheck
+        viol = core.violation(
+            PROPERTY, 'D3', step, kind,
+            'an augmented assignment ends differently from the same one on a '
+            'fresh object', expected=core.canon(f_raised),
+            got=core.canon(raised))
+        break
+      if raised is None:
+        new = np.array(cur)
+        new += d
+        if t.read_since_assign:
+          t.stale_opportunity = True
+        n_assign += 1
+        if which == 'x':
+          t.x = new
+        else:
+          t.y = new
+          t.x = None
+        t.caller_x = t.caller_y = None
+        t.alias_x = t.alias_y = False
+        t.read_since_assign = set()
+        fault('augmented_assignment_in_place')
+      else:
+        probe('augmented_assignment_refused')
+        if not isinstance(raised, (TypeError, ValueError)):
+          stats['skipped']['iadd_failed_oddly'] = 1
+          break
+      ev = [step, kind, op.get('o', 0), which, core.canon(raised)]
+      absig.append((kind, op.get('o', 0), which))
     elif kind == 'clear_x':
       try:
         obj.x = None
@@ -574,20 +631,30 @@ def execute(desc):
       arr = t.caller_x if op['which'] == 'x' else t.caller_y
       if arr is not None and len(arr):
         pos = op['pos'] % len(arr)
-        arr[pos] = arr.dtype.type(op['v'])
-        if op['which'] == 'x':
-          t.alias_x = True
-        else:
-          t.alias_y = True
-        fault('caller_mutates_passed_array')
+        try:
+          arr[pos] = arr.dtype.type(op['v'])
+          wrote = True
+        except (OverflowError, ValueError, TypeError):
+          wrote = False          # e.g. a negative value into a uint64 array
+        if wrote:
+          if op['which'] == 'x':
+            t.alias_x = True
+          else:
+            t.alias_y = True
+          fault('caller_mutates_passed_array')
       ev = [step, kind, op.get('o', 0), op['which']]
       absig.append((kind, op.get('o', 0), op['which'], arr is not None))
     elif kind == 'snapshot':
+      new = None
       if op.get('how') == 'pickle':
         import pickle  # pylint: disable=g-import-not-at-top
-        new = pickle.loads(pickle.dumps(obj))
-        probe('snapshot_by_pickle')
-      else:
+        try:
+          new = pickle.loads(pickle.dumps(obj))
+          probe('snapshot_by_pickle')
+        except Exception:  # pylint: disable=broad-except
+          # C08 does not promise picklability: fall back to a deep copy
+          stats['skipped']['pickle_unsupported'] = 1
+      if new is None:
         new = copy.deepcopy(obj)
       nt = _Tracked(new, None if t.y is None else t.y.copy(),
                     None if t.x is None else t.x.copy(), t.pk)
